@@ -215,7 +215,9 @@ def cases(tier='quick', families=None):
             for inner in ('SEQUENCE', 'SET', 'CHOICE', 'SEQUENCE OF', 'SET OF'):
                 for orole in ([r for r in roles_of(outer) if r != 'default'] if tier != 'quick' else roles_of(outer)[:2]):
                     for (l1, l2) in (pairs if tier != 'quick' else pairs[:2]):
-                        for td in modes:
+                        for td in (modes if tier != 'quick' or (l1, l2) != pairs[0] else ['AUTOMATIC', 'EXPLICIT']):
+                            # quick: one leaf pair also under EXPLICIT TAGS with context tags, so that constructed types with a
+                            # tag chain of two (the shape behind several BER length/EOC accounting paths) are in every run
                             tm = None if td == 'AUTOMATIC' else (2, 1, None)
                             if inner in ('SEQUENCE', 'SET'):
                                 it = Type(inner, root=[Member('p', _t(catd[l1](), tm, 5)), Member('q', _t(catd[l2](), tm, 6), optional=True)])
